@@ -124,6 +124,25 @@ pub fn all_dags(n: usize) -> Vec<Dag> {
     v
 }
 
+/// All 2^(n(n-1)/2) DAGs on n nodes whose links respect the node order (the parents of node j are among the
+/// nodes 0..j): one representative of every unlabelled shape in every topological numbering. Used beyond the
+/// size at which all labelled DAGs are affordable; callers assign ids ascending and descending.
+pub fn topo_dags(n: usize) -> Vec<Dag> {
+    let pairs: Vec<(usize, usize)> = (0..n).flat_map(|c| (0..c).map(move |p| (c, p))).collect();
+    let mut out = Vec::with_capacity(1usize << pairs.len());
+    for mask in 0u64..(1u64 << pairs.len()) {
+        let mut parents = vec![0u32; n];
+        for (k, (c, p)) in pairs.iter().enumerate() {
+            if mask >> k & 1 == 1 {
+                parents[*c] |= 1 << p;
+            }
+        }
+        out.push(Dag { n, parents });
+    }
+    assert_eq!(out.len(), 1usize << (n * (n - 1) / 2));
+    out
+}
+
 /// All permutations of 0..n in lexicographic order.
 pub fn permutations(n: usize) -> Vec<Vec<usize>> {
     let mut out = vec![];
